@@ -73,7 +73,13 @@ def _match_list(actual, expected):
     return len(actual) in states
 
 
-VARIANT_CLASS = {(True, True): None, (False, True): "intkey-order", (True, False): "accessor-omitted", (False, False): "intkey-order+accessor-omitted"}
+# (which model, accessors included) -> class of the recorded deviation
+VARIANTS = [
+    ((0, True), None),
+    ((1, True), "intkey-order"),
+    ((0, False), "accessor-omitted"),
+    ((1, False), "intkey-order+accessor-omitted"),
+]
 VARIANT_GUARDS = {
     "intkey-order": ("c08.intkey_order",),
     "accessor-omitted": ("c08.accessor_enum",),
@@ -109,28 +115,39 @@ class Comparer:
         self.bad = []
         self.known = collections.Counter()
 
+    def state_known(self):
+        """An answer that equals the one of the creation-order model: known
+        while the integer-key finding is active."""
+        if "c08.intkey_order" in self.guards:
+            self.known[GUARD_FINDING.get("c08.intkey_order", "c08.intkey_order")] += 1
+            return True
+        return False
+
     def add(self, sig, exp, act):
         if len(self.bad) < 12 and all(b[0] != sig for b in self.bad):
             self.bad.append((sig, exp, act))
 
-    def enum_obs(self, name, kind, got, rec, field, as_list=True):
-        """An enumeration-type observation with its four variants."""
-        if got == "throw":
-            self.add("hist|%s|%s|throw" % (name, kind), [t for t, _ in rec["variants"][(True, True)][field]] if as_list else rec["variants"][(True, True)][field], got)
+    def enum_obs(self, name, kind, got, recs, field, as_list=True):
+        """An enumeration-type observation; recs = (ES record, record of the
+        model that enumerates in creation order)."""
+        good = recs[0]["variants"][True][field]
+        shown = ["%s%s" % (t, "?" if opt else "") for t, opt in good] if as_list else good
+        if got == "throw" and as_list:
+            self.add("hist|%s|%s|throw" % (name, kind), shown, got)
             return
         hit = None
-        for var in ((True, True), (False, True), (True, False), (False, False)):
-            exp = rec["variants"][var][field]
+        for (which, acc), cls in VARIANTS:
+            exp = recs[which]["variants"][acc][field]
+            if exp is None:
+                continue
             ok = _match_list(_split(got), exp) if as_list else (got == exp)
             if ok:
-                hit = var
+                hit = (cls,)
                 break
-        if hit == (True, True):
+        if hit == (None,):
             return
-        good = rec["variants"][(True, True)][field]
-        shown = ["%s%s" % (t, "?" if opt else "") for t, opt in good] if as_list else good
         if hit is not None:
-            cls = VARIANT_CLASS[hit]
+            cls = hit[0]
             if all(g in self.guards for g in VARIANT_GUARDS[cls]):
                 for g in VARIANT_GUARDS[cls]:
                     self.known[GUARD_FINDING.get(g, g)] += 1
@@ -140,45 +157,48 @@ class Comparer:
         d = _list_diff_class(_split(got), good) if as_list else "text"
         self.add("hist|%s|%s|%s" % (name, kind, d), shown, got)
 
-    def target(self, model, spec, keys, protos, wj, rec, got):
+    def target(self, model, spec, keys, protos, mode, recs, got):
         o = model.target(spec)
         kind = o.kind
-        n_expected = 3 * len(keys) + 4 + 1 + 4 + len(protos) + (1 if wj else 0)
+        rec = recs[0]
+        n_expected = 3 * len(keys) + ((4 + 1 + 4 + len(protos)) if mode & 2 else 0) + (1 if mode & 1 else 0)
         if not isinstance(got, list) or len(got) != n_expected:
             self.add("hist|shape|%s" % kind, n_expected, got if not isinstance(got, list) else len(got))
             return
         i = 0
-        for k, (eg, ei, eh) in zip(keys, rec["per"]):
+        for k, (eg, ei, eh), alt in zip(keys, rec["per"], recs[1]["per"]):
             ag, ai, ah = got[i], got[i + 1], got[i + 2]
             i += 3
+            if [ag, ai, ah] != [eg, ei, eh] and [ag, ai, ah] == alt and self.state_known():
+                continue  # the state itself differs because of the recorded key order (Object.assign stopped elsewhere)
             if ag != eg:
                 self.add("hist|get|%s|%s|%s->%s" % (kind, key_class(model, o, k), _kind_of(eg), _kind_of(ag)), [k, eg], [k, ag])
             if ai != ei:
                 self.add("hist|in|%s|%s|%s->%s" % (kind, key_class(model, o, k), ei, ai), [k, ei], [k, ai])
             if ah != eh:
                 self.add("hist|hasOwn|%s|%s|%s->%s" % (kind, key_class(model, o, k), eh, ah), [k, eh], [k, ah])
-        self.enum_obs("keys", kind, got[i], rec, "keys")
-        self.enum_obs("values", kind, got[i + 1], rec, "values")
-        self.enum_obs("entries", kind, got[i + 2], rec, "entries")
-        self.enum_obs("forin", kind, got[i + 3], rec, "forin")
-        i += 4
-        if got[i] != rec["proto"]:
-            self.add("hist|getPrototypeOf|%s|%s->%s" % (kind, _kind_of(rec["proto"]), _kind_of(got[i])), rec["proto"], got[i])
-        i += 1
-        for j in range(4):
-            if got[i + j] != rec["inst"][j]:
-                self.add("hist|instanceof|%s|%s->%s" % (kind, rec["inst"][j], got[i + j]), ["F%d" % j, rec["inst"][j]], ["F%d" % j, got[i + j]])
-        i += 4
-        for j, p in enumerate(protos):
-            if got[i + j] != rec["isproto"][j]:
-                self.add("hist|isPrototypeOf|%s|%s->%s" % (kind, rec["isproto"][j], got[i + j]), [p, rec["isproto"][j]], [p, got[i + j]])
-        i += len(protos)
-        if wj:
-            if rec["variants"][(True, True)]["json"] is not None:
-                # the four variants as texts
-                for var in rec["variants"]:
-                    rec["variants"][var]["jsontext"] = "J" + (rec["variants"][var]["json"] or "")
-                self.enum_obs("json", kind, got[i], rec, "jsontext", as_list=False)
+        if mode & 2:
+            self.enum_obs("keys", kind, got[i], recs, "keys")
+            self.enum_obs("values", kind, got[i + 1], recs, "values")
+            self.enum_obs("entries", kind, got[i + 2], recs, "entries")
+            self.enum_obs("forin", kind, got[i + 3], recs, "forin")
+            i += 4
+            if got[i] != rec["proto"] and got[i] == recs[1]["proto"] and self.state_known():
+                pass
+            elif got[i] != rec["proto"]:
+                self.add("hist|getPrototypeOf|%s|%s->%s" % (kind, _kind_of(rec["proto"]), _kind_of(got[i])), rec["proto"], got[i])
+            i += 1
+            for j in range(4):
+                if got[i + j] != rec["inst"][j]:
+                    self.add("hist|instanceof|%s|%s->%s" % (kind, rec["inst"][j], got[i + j]), ["F%d" % j, rec["inst"][j]], ["F%d" % j, got[i + j]])
+            i += 4
+            for j, p in enumerate(protos):
+                if got[i + j] != rec["isproto"][j]:
+                    self.add("hist|isPrototypeOf|%s|%s->%s" % (kind, rec["isproto"][j], got[i + j]), [p, rec["isproto"][j]], [p, got[i + j]])
+            i += len(protos)
+        if mode & 1:
+            if rec["variants"][True]["json"] is not None:
+                self.enum_obs("json", kind, got[i], recs, "jsontext", as_list=False)
 
 
 def _texts(items):
@@ -187,12 +207,13 @@ def _texts(items):
 
 def model_records(model, plan):
     recs = []
-    for spec, keys, protos, wj in plan:
-        rec = model.observe(spec, keys, protos, wj)
-        for var, v in rec["variants"].items():
+    for spec, keys, protos, mode in plan:
+        rec = model.observe(spec, keys, protos, bool(mode & 1))
+        for v in rec["variants"].values():
             v["keys"] = _texts(v["keys"])
             v["forin"] = _texts(v["forin"])
             v["entries"] = [("s" + t, opt) for t, opt in v["entries"]]
+            v["jsontext"] = None if v["json"] is None else "throw" if v["json"] is M.CYCLIC else "J" + v["json"]
         recs.append(rec)
     return recs
 
@@ -202,19 +223,22 @@ class History:
 
     def __init__(self, guards=(), observe=True):
         self.m = engine.load()
-        self.ctx = self.m.Context(time_limit=20)
+        self.ctx = self.m.Context(time_limit=5)
         self.model = M.Model()
+        self.model2 = M.Model(es_key_order=False)  # enumerates in creation order (recorded finding)
         self.guards = set(guards)
         self.observe = observe
         self.steps_run = 0
         self.known = collections.Counter()
+        self.excluded = collections.Counter()
+        self.diverged = False
         r = self._eval(G.PRELUDE)
         if r != ("ok", "ready"):
             raise engine.HarnessError("C08 prelude failed: %r" % (r,))
 
     def _eval(self, src):
         try:
-            with pool.cpu_alarm(30):
+            with pool.cpu_alarm(12):
                 return ("ok", self.ctx.eval(src))
         except pool.HarnessTimeout:
             return ("exc", ["HANG", ""])
@@ -226,13 +250,34 @@ class History:
 
     def step(self, st, index, full=False, observe=None):
         """Returns None (agreement / skipped) or a list of (signature, expected, actual)."""
+        if "c08.function_object" in self.guards and st["op"] in ("defdata", "defacc", "assign"):
+            t = self.model.target(st["o"])
+            if t is not None and t.kind == "function":
+                # recorded finding: Object.defineProperty / Object.assign do not
+                # take functions; the step is left out on both sides
+                self.excluded["C08-function-object: defineProperty / assign on a function"] += 1
+                return None
+        if self.guards and st["op"] in ("get", "callm"):
+            t = self.model.target(st["o"])
+            if t is not None and G.guarded_key(self.model, t, self.model.key_from_form(st["key"]), self.guards):
+                self.excluded["read of a key excluded by a recorded finding"] += 1
+                return None
         res = self.model.apply(st)
         if res is M.SKIP:
             return None
+        res2 = self.model2.apply(st)
+        if res2 != res:
+            # The step ends differently when keys are enumerated in creation
+            # order (an Object.assign that stops at another key): from here on
+            # the two models describe different object graphs.
+            if "c08.intkey_order" in self.guards:
+                self.excluded["C08-intkey-order: history left where the key order changes the outcome of a step"] += 1
+                self.diverged = True
+                return None
         self.steps_run += 1
         observe = self.observe if observe is None else observe
         if observe:
-            plan = G.observation_plan(self.model, st, index, full)
+            plan = G.observation_plan(self.model, st, index, full, self.guards)
             obs_text = G.render_observation(plan)
         else:
             plan, obs_text = [], "[]"
@@ -248,8 +293,9 @@ class History:
             cmpr.add("hist|step|%s|%s->%s" % (st["op"], _kind_of(res.lstrip("=")) if res[0] == "=" else res,
                                               _kind_of(str(got[0]).lstrip("=")) if str(got[0])[:1] == "=" else got[0]), res, got[0])
         recs = model_records(self.model, plan)
-        for (spec, keys, protos, wj), rec, g in zip(plan, recs, got[1]):
-            cmpr.target(self.model, spec, keys, protos, wj, rec, g)
+        recs2 = model_records(self.model2, plan)
+        for (spec, keys, protos, mode), rec, rec2, g in zip(plan, recs, recs2, got[1]):
+            cmpr.target(self.model, spec, keys, protos, mode, (rec, rec2), g)
         self.known.update(cmpr.known)
         return cmpr.bad or None
 
@@ -263,7 +309,9 @@ def run_history(steps, guards=(), final_only=False, want=None):
     n = len(steps)
     for i, st in enumerate(steps):
         last = i == n - 1
-        bad = h.step(st, i, full=last or (i % 8 == 7), observe=(last or not final_only))
+        bad = h.step(st, i, full=last or (i % 6 == 5), observe=(last or not final_only))
+        if h.diverged:
+            return None, h
         if bad:
             if final_only and not last:
                 # step results of intermediate steps do not count while shrinking
@@ -297,7 +345,7 @@ def shrink_history(steps, fail, guards):
 
     if not still(steps):
         return steps  # the failure needs the intermediate observations (should not happen)
-    budget = 160
+    budget = 80
     chunk = max(1, len(steps) // 2)
     while chunk >= 1 and budget > 0:
         i = 0
@@ -318,18 +366,30 @@ def shrink_history(steps, fail, guards):
     return steps
 
 
+MAX_SHRINKS_PER_TASK = 3
+
+
 def hist_task(task):
     seeds, n_steps, guards = task
-    out = {"histories": 0, "steps": 0, "nontrivial": [], "classes": collections.Counter(), "fails": [], "known": collections.Counter()}
+    out = {"histories": 0, "steps": 0, "nontrivial": [], "classes": collections.Counter(), "fails": [], "known": collections.Counter(),
+           "excluded": collections.Counter()}
     seen = set()
+    shrinks = 0
     for seed in seeds:
         steps = G.build_history(seed, n_steps)
         fail, h = run_history(steps, guards)
         out["histories"] += 1
         out["steps"] += h.steps_run
         out["known"].update(h.known)
+        out["excluded"].update(h.excluded)
         for s in steps[: (fail["at"] + 1) if fail else len(steps)]:
             out["classes"]["hist " + s["op"]] += 1
+            k = s.get("key")
+            if isinstance(k, list):
+                out["classes"]["key form " + (k[0] if k[0] != "computed" else "computed-" + k[1][0])] += 1
+                kk = k[-1] if k[0] != "computed" else k[1][-1]
+                if kk in ("__proto__", "length", "constructor", "toString"):
+                    out["classes"]["key " + kk] += 1
         tags = G.history_tags(steps[: (fail["at"] + 1) if fail else len(steps)])
         if ("relink" in tags or "accessor" in tags) and "delete" in tags:
             out["nontrivial"].append(seed)
@@ -340,23 +400,28 @@ def hist_task(task):
                     continue
                 seen.add(sig)
                 f = dict(fail, signature=sig)
-                if sig != fail["signature"]:
-                    f2, _ = run_history(steps[: fail["at"] + 1], guards, want=sig)
-                    if f2 is None:
-                        continue
-                    f = f2
-                small = shrink_history(steps, f, guards)
-                f3, _ = run_history(small, guards, final_only=True, want=sig)
-                if f3 is None:
-                    small, f3 = steps[: f["at"] + 1], f
+                small = steps[: fail["at"] + 1]
+                # shrinking is bounded per task: a broken tree fails in hundreds of
+                # ways and every candidate is a replay of the whole history
+                if shrinks < MAX_SHRINKS_PER_TASK and not sig.startswith("hist|exception"):
+                    shrinks += 1
+                    if sig != fail["signature"]:
+                        f2, _ = run_history(small, guards, want=sig)
+                        if f2 is not None:
+                            f = f2
+                    cand = shrink_history(steps, f, guards)
+                    f3, _ = run_history(cand, guards, final_only=True, want=sig)
+                    if f3 is not None:
+                        small, f = cand, f3
                 ops = sorted({s["op"] for s in small})
                 out["fails"].append({
                     "signature": sig + ("|ops:" + "+".join(ops) if len(small) <= 4 else "|ops:many"),
-                    "steps": small, "expected": f3["expected"], "actual": f3["actual"], "seed": seed,
+                    "steps": small, "expected": f["expected"], "actual": f["actual"], "seed": seed,
                     "js": [G.render_step(s)[0] for s in small],
                 })
     out["classes"] = dict(out["classes"])
     out["known"] = dict(out["known"])
+    out["excluded"] = dict(out["excluded"])
     return out
 
 
@@ -364,7 +429,7 @@ def run_hist(chk, guards):
     if chk.tier == "quick":
         n_hist, n_steps, per_task = 320, 26, 5
     else:
-        n_hist, n_steps, per_task = 6000, 50, 25
+        n_hist, n_steps, per_task = 3000, 40, 20
     seeds = [core.shard_seed(chk.seed, ID, "hist", i) % (2 ** 31) for i in range(n_hist)]
     tasks = [(seeds[i : i + per_task], n_steps, sorted(guards)) for i in range(0, n_hist, per_task)]
     results = pool.run(hist_task, tasks, timeout=1800)
@@ -379,6 +444,8 @@ def run_hist(chk, guards):
             chk.classify(k, n)
         for fid, n in r["known"].items():
             chk.known_hit(fid, n)
+        for why, n in r["excluded"].items():
+            chk.excluded[why] += n
         for f in r["fails"]:
             if f.get("dup"):
                 if f["signature"] in chk.violations:
@@ -423,8 +490,6 @@ def _call_signature(pid, d):
     if isinstance(detail, dict) and detail.get("expected") is not None and what.startswith("log"):
         e = detail.get("expected")
         tag = e[0] if isinstance(e, list) and e and isinstance(e[0], str) else ""
-    if what.startswith("log") and tag in ("len", "name"):
-        form = "*"  # properties of the function itself: the call form plays no part
     return "call|%s|%s|%s|%s" % (tag or "-", what, kind, form)
 
 
@@ -525,8 +590,6 @@ def replay(rec):
     if kind == "hist":
         want = case.get("want")
         f, _ = run_history(case["steps"], guards=case.get("guards") or (), final_only=bool(case.get("final_only", True)), want=want)
-        if f is None and want is not None:
-            f, _ = run_history(case["steps"], guards=case.get("guards") or (), final_only=False, want=None)
         if f:
             return {"fails": True, "expected": f["expected"], "actual": f["actual"], "signature": f["signature"]}
         return {"fails": False, "expected": None, "actual": None}
